@@ -53,10 +53,11 @@ type ImplFailure struct {
 
 // ShardInfo describes one cases file.
 type ShardInfo struct {
-	File   string `json:"file"`
-	Stream string `json:"stream"`
-	Cases  int    `json:"cases"`
-	JSON   string `json:"json"`
+	File   string   `json:"file"`
+	Stream string   `json:"stream"`
+	Cases  int      `json:"cases"`
+	JSON   string   `json:"json"`
+	Preds  []string `json:"preds,omitempty"` // verdict shards: names of the predicates, in order
 }
 
 // Rand returns the PRNG of a named stream, derived from the one seed.
@@ -138,6 +139,8 @@ type Shard struct {
 	typ     string
 	corr    string
 	holds   string
+	verdict string
+	preds   []string
 	max     int
 	n       int
 	k       int
@@ -149,6 +152,18 @@ type Shard struct {
 // functions corr and holds (holds may be empty) from the module imports.
 func (c *Ctx) NewShard(stream, imports, typ, corr, holds string, max int) *Shard {
 	s := &Shard{ctx: c, stream: stream, imports: imports, typ: typ, corr: corr, holds: holds, max: max}
+	c.mu.Lock()
+	c.shards = append(c.shards, s)
+	c.mu.Unlock()
+	return s
+}
+
+// NewShardV starts a stream whose cases are judged by ONE Coq function verdict : typ -> list bool that
+// computes the shared part once; preds names the booleans in order.  Names starting with "corr" are
+// correspondences, names starting with "holds" are property predicates (selected per property by the
+// "holds_preds" key of props/<ID>.json).
+func (c *Ctx) NewShardV(stream, imports, typ, verdict string, preds []string, max int) *Shard {
+	s := &Shard{ctx: c, stream: stream, imports: imports, typ: typ, verdict: verdict, preds: preds, max: max}
 	c.mu.Lock()
 	c.shards = append(c.shards, s)
 	c.mu.Unlock()
@@ -184,14 +199,27 @@ func (s *Shard) Flush() {
 		fmt.Fprintf(&b, "  %s%s\n", t, sep)
 	}
 	b.WriteString("].\n")
-	fmt.Fprintf(&b, "Definition corr_fails := Eval vm_compute in fails %s cases.\n", s.corr)
+	if s.verdict != "" {
+		fmt.Fprintf(&b, "Definition verdicts := Eval vm_compute in map %s cases.\n", s.verdict)
+		b.WriteString("Set Printing Width 1000000.\nSet Printing Depth 1000000.\nPrint verdicts.\n")
+	} else {
+		s.flushLegacy(&b)
+	}
+	s.write(name, &b)
+}
+
+func (s *Shard) flushLegacy(b *strings.Builder) {
+	fmt.Fprintf(b, "Definition corr_fails := Eval vm_compute in fails %s cases.\n", s.corr)
 	if s.holds != "" {
-		fmt.Fprintf(&b, "Definition holds_fails := Eval vm_compute in fails %s cases.\n", s.holds)
+		fmt.Fprintf(b, "Definition holds_fails := Eval vm_compute in fails %s cases.\n", s.holds)
 	} else {
 		b.WriteString("Definition holds_fails : list nat := [].\n")
 	}
 	b.WriteString("Set Printing Width 1000000.\nSet Printing Depth 1000000.\n")
 	b.WriteString("Print corr_fails.\nPrint holds_fails.\n")
+}
+
+func (s *Shard) write(name string, b *strings.Builder) {
 	vfile := filepath.Join(s.ctx.Out, name+".v")
 	if err := os.WriteFile(vfile, []byte(b.String()), 0o644); err != nil {
 		s.ctx.HarnessError("write %s: %v", vfile, err)
@@ -205,7 +233,7 @@ func (s *Shard) Flush() {
 		s.ctx.HarnessError("write %s: %v", jfile, err)
 	}
 	s.ctx.mu.Lock()
-	s.ctx.Stats.Shards = append(s.ctx.Stats.Shards, ShardInfo{File: name + ".v", Stream: s.stream, Cases: len(s.terms), JSON: name + ".json"})
+	s.ctx.Stats.Shards = append(s.ctx.Stats.Shards, ShardInfo{File: name + ".v", Stream: s.stream, Cases: len(s.terms), JSON: name + ".json", Preds: s.preds})
 	s.ctx.mu.Unlock()
 	s.n += len(s.terms)
 	s.terms, s.raws = nil, nil
